@@ -1,4 +1,7 @@
-(* C03 -- the metadynamics object (C05 model of colvarbias_meta::update for one replica, with its model of
+(* ADAPTER: every use that coq/C03 makes of the C05 slice's definitions is in this file (definitions) and in
+   UsesC05Proofs.v (lemmas that unfold them); the other C03 files refer to the names defined here only.
+
+   C03 -- the metadynamics object (C05 model of colvarbias_meta::update for one replica, with its model of
    write_state_data / read_state_data) as a [machine].  Writing the state is not neutral: with grids the hills
    not yet projected are projected first (m_after_save = save_state).  Definitions only. *)
 From Coq Require Import ZArith List Bool.
@@ -27,4 +30,10 @@ Section MetaObject.
     mkMachine (init_state O)
               (fun c s it rel x => step O c s (mkIn it rel false x))
               meta_save (save_state O) meta_load.
+
+  (* names used by the other C03 files: a configuration with grids, keepHills, well-tempered, newHillFrequency 2,
+     gridsUpdateFrequency 1 (non-vacuity example), and the three flags *)
+  Definition meta_example_cfg (one two temp : T) : @cfg T :=
+    mkCfg [] [] one two 2 1 true true true temp one false false 0 (fun _ => one).
+  Definition meta_flags (c : @cfg T) : bool * bool * bool := (c_use_grids c, c_keep c, c_wt c).
 End MetaObject.
